@@ -1092,6 +1092,9 @@ func c09(c *core.Ctx) {
 		}
 	}
 
+	rFR := c.Rule("C09.flagreset", "the change flags of a record are cleared on the save path while the saver still holds the record's guard (by a function SaveFunction calls before any release of the guard), never after Save has returned: in immediate-write mode SaveFunction releases the guard itself, and a later reset wipes the flags the next holder has just raised - its Save is then classified 'same', nothing is written and its acknowledged update is lost (shared with C19.flags)", 8)
+	flagsRule(c, rFR)
+
 	rT := c.Rule("C09.toctou", "read-modify-write entry points (Increment*, PatchFields, PatchExpired per record) read the content type only after acquiring the guard; CreateTreasure does its lookups and the registration of the in-flight record while holding createMu", 12)
 	for _, f := range p.FuncsIn(pkgSwamp) {
 		if f.Decl.Body == nil {
